@@ -86,6 +86,26 @@ def _verify_sig(identity32, spk_pub32, sig):
         return False
 
 
+def _K(rec):
+    """a one-time key is identified by its id AND its key material (an id may be reused for a new key once the old one is consumed)"""
+    return (rec.getId(), bytes(rec.getKeyPair().getPublicKey().serialize()[1:]))
+
+
+def _stored(store):
+    return set(_K(r) for r in store.loadPreKeys())
+
+
+def _committed_keys(d):
+    """(id, key material) of the one-time keys a process started now would find (committed state)"""
+    import sqlite3
+    from axolotl.state.prekeyrecord import PreKeyRecord
+    c = sqlite3.connect(os.path.join(d, "axolotl.db"))
+    try:
+        return set(_K(PreKeyRecord(serialized=bytes(r[0]))) for r in c.execute("SELECT record FROM prekeys").fetchall())
+    finally:
+        c.close()
+
+
 def _committed_prekey_ids(d):
     import sqlite3
     c = sqlite3.connect(os.path.join(d, "axolotl.db"))
@@ -138,6 +158,8 @@ def h_history(ctx, n, prefix=()):
                     possible.append("upload-result-newest")
             if (confirmed - consumed):
                 possible.append("peer-first-message")
+                if len(confirmed - consumed) > 1:
+                    possible.append("peer-first-message-highest-key")
             if disp.state == "up":
                 possible.append("connection-loss")
             possible += ["restart", "stop"]
@@ -150,7 +172,7 @@ def h_history(ctx, n, prefix=()):
             hist.append(ev)
             mark = len(sent)
             tag = "#%d %s" % (step, ev)
-            unsent_before = set(r.getId() for r in store.preKeyStore.loadUnsentPendingPreKeys())
+            unsent_before = set(_K(r) for r in store.preKeyStore.loadUnsentPendingPreKeys())
             raised = None
             out0 = None
             try:
@@ -169,10 +191,12 @@ def h_history(ctx, n, prefix=()):
                 elif ev == "upload-error":
                     out0 = outstanding.pop(0)
                     net.receive(N("iq", {"id": out0[0], "type": "error", "from": "s.whatsapp.net"}, [N("error", {"code": "500", "text": "internal"})]))
-                elif ev == "peer-first-message":
-                    kid = sorted(confirmed - consumed)[0]
+                elif ev in ("peer-first-message", "peer-first-message-highest-key"):
+                    # which of the offered keys the server hands to the contact is the server's choice: oldest or newest
+                    kkey = sorted(confirmed - consumed)[0 if ev == "peer-first-message" else -1]
+                    kid = kkey[0]
                     _peer_first_message(d, mgr, store, kid, step)
-                    consumed.add(kid)
+                    consumed.add(kkey)
                 elif ev == "connection-loss":
                     disp.state = "idle"
                     net.onDisconnected()
@@ -192,46 +216,51 @@ def h_history(ctx, n, prefix=()):
                 if disp.state != "up":
                     outstanding = []
             # a result reply that the layer turns into a reconnect (passive login finished)
-            if ev == "peer-first-message":
-                obs.append((tag + ": a consumed one-time key is gone from the store", not store.containsPreKey(kid)))
-                obs.append((tag + ": ... also for a process started now (committed state)", kid not in _committed_prekey_ids(d)))
+            if ev in ("peer-first-message", "peer-first-message-highest-key"):
+                obs.append((tag + ": a consumed one-time key is gone from the store", kkey not in _stored(store)))
+                obs.append((tag + ": ... also for a process started now (committed state)", kkey not in _committed_keys(d)))
             if ev in ("upload-result", "upload-result-newest"):
                 obs.append((tag + ": confirmed ids are marked as uploaded in the store",
-                            set(out0[1]) & set(r.getId() for r in store.preKeyStore.loadUnsentPendingPreKeys()) == set()))
+                            set(out0[1]) & set(_K(r) for r in store.preKeyStore.loadUnsentPendingPreKeys()) == set()))
                 confirmed |= set(out0[1])
                 if disp.state != "up":
                     authed = False
             if ev == "upload-error":
                 obs.append((tag + ": rejection is reported", raised is not None))
-                obs.append((tag + ": rejected keys stay pending", set(out0[1]) <= set(r.getId() for r in store.preKeyStore.loadUnsentPendingPreKeys())))
+                obs.append((tag + ": rejected keys stay pending", set(out0[1]) <= set(_K(r) for r in store.preKeyStore.loadUnsentPendingPreKeys())))
                 raised = None
             if raised is not None:
                 obs.append((tag + ": no exception (%s: %s)" % (type(raised).__name__, str(raised)[:80]), False))
             uploads = [x for x in sent[mark:] if x.tag == "iq" and x.getChild("list") is not None]
             for u in uploads:
                 p = _parse_upload(u)
-                offered_ever |= set(p["ids"])
-                obs.append((tag + ": no confirmed key id is offered again (%s)" % sorted(set(p["ids"]) & confirmed), not (set(p["ids"]) & confirmed)))
-                obs.append((tag + ": every offered id maps to a key stored locally", all(store.containsPreKey(i) for i in p["ids"])))
+                pk = set((i, bytes(p["keys"][i])) for i in p["ids"])
+                offered_ever |= pk
+                obs.append((tag + ": no confirmed key is offered again (%s)" % sorted(i for i, _ in pk & confirmed), not (pk & confirmed)))
+                # an id may be used for a new key only after the key that had it was consumed
+                live = dict((i, k) for (i, k) in (offered_ever - consumed) if (i, k) not in pk)
+                obs.append((tag + ": an id offered for a new key is not the id of another offered key that is still waiting to be used", not any(i in live for i, _ in pk)))
+                obs.append((tag + ": every offered id maps to a key stored locally", all(store.containsPreKey(i) for i in p["ids"]) and pk <= _stored(store)))
                 obs.append((tag + ": offered public keys are the stored ones", all(bytes(p["keys"][i]) == store.loadPreKey(i).getKeyPair().getPublicKey().serialize()[1:] for i in p["ids"])))
                 obs.append((tag + ": ids are 3-byte big-endian, keys 32 bytes", all(l == 3 for l in p["id_lens"]) and all(len(v) == 32 for v in p["keys"].values())))
                 obs.append((tag + ": carries the identity key", bytes(p["identity"]) == mgr.identity.getPublicKey().serialize()[1:]))
                 obs.append((tag + ": carries the registration id", int.from_bytes(p["registration"], "big") == mgr.registration_id))
                 obs.append((tag + ": signed prekey signature verifies under the identity", _verify_sig(p["identity"], p["skey"][1], p["skey"][2])))
-                outstanding.append((hooks.dict_get(u.attributes, "id"), p["ids"]))
+                outstanding.append((hooks.dict_get(u.attributes, "id"), sorted(pk)))
             if ev == "success":
                 # authenticated login: everything generated and not confirmed must be offered now
                 pending = unsent_before
                 if pending:
-                    offered_now = set(i for u in uploads for i in _parse_upload(u)["ids"])
-                    obs.append((tag + ": keys whose upload was never confirmed are offered at this login (pending %s, offered %s)" % (sorted(pending), sorted(offered_now)), pending <= offered_now))
+                    offered_now = set((i, bytes(k)) for u in uploads for i, k in _parse_upload(u)["keys"].items())
+                    obs.append((tag + ": keys whose upload was never confirmed are offered at this login (pending %s, offered %s)" % (sorted(i for i, _ in pending), sorted(i for i, _ in offered_now)),
+                                pending <= offered_now))
             if ev == "connect":
-                unsent = set(r.getId() for r in store.preKeyStore.loadUnsentPendingPreKeys())
+                unsent = set(_K(r) for r in store.preKeyStore.loadUnsentPendingPreKeys())
                 obs.append((tag + ": confirmed keys never count as pending", not (unsent & confirmed)))
-            allkeys = set(r.getId() for r in store.loadPreKeys())
+            allkeys = _stored(store)
             obs.append((tag + ": offered keys stay available locally until consumed", (offered_ever - consumed) <= allkeys))
-            obs.append((tag + ": consumed keys never come back", not (consumed & allkeys) and not (consumed & _committed_prekey_ids(d))))
-            unsent_now = set(r.getId() for r in store.preKeyStore.loadUnsentPendingPreKeys())
+            obs.append((tag + ": consumed keys never come back", not (consumed & allkeys) and not (consumed & _committed_keys(d))))
+            unsent_now = set(_K(r) for r in store.preKeyStore.loadUnsentPendingPreKeys())
             obs.append((tag + ": a confirmed key never counts as pending again", not (unsent_now & confirmed)))
         ctx.note("history %s" % hist)
         try:
